@@ -39,13 +39,13 @@ ALL_REQ = B.FLAG_REQ_ANY | B.FLAG_REQ_STATUS_TIME
 def gen_routes(rng):
     rx = []
     for _ in range(rng.choice([0, 1, 2, 3, 3, 4, 5])):
-        rx.append([rng.choice(PATTERNS), rng.choice(ACTIONS[:3] if rng.random() < 0.8 else ACTIONS)])
+        rx.append([rng.choice(PATTERNS), rng.choice(['deliver', 'forward', 'forward', 'delete'] if rng.random() < 0.8 else ACTIONS)])
     tx = []
     for _ in range(rng.choice([0, 1, 1, 2, 3])):
         mtu = rng.choice([None, None, None, 100000, 20, 40, 270])
         tx.append(dict(pattern=rng.choice(PATTERNS), cl_type=('fake' if rng.random() < 0.85 else 'absent'), mtu=mtu))
-    if rng.random() < 0.6:
-        tx.append(dict(pattern='.*', cl_type='fake', mtu=None))
+    if rng.random() < 0.7:
+        tx.append(dict(pattern='.*', cl_type='fake', mtu=rng.choice([None, None, 270])))
     return (rx, tx)
 
 
@@ -144,49 +144,7 @@ def gen_case(rng, length):
     raise RuntimeError('generator kept producing ambiguous MTU cases')
 
 
-# ----------------------------------------------------------------------------- implementation side (worker)
-
-def slim_event(evt):
-    if evt[0] == 'tx':
-        ent = evt[1]
-        dec = dict(ent['bundle'])
-        dec.pop('raw_hex', None)
-        for blk in dec.get('blocks', []):
-            if isinstance(blk.get('data'), bytes):
-                blk['data'] = blk['data'].hex()
-        if isinstance(dec.get('payload'), bytes):
-            dec['payload'] = dec['payload'].hex()
-        return ['tx', dict(route_index=ent['route_index'], size=ent['size'], bundle=dec)]
-    if evt[0] == 'deliver':
-        return ['deliver', dict(evt[1], ident=list(evt[1]['ident']))]
-    return list(evt)
-
-
-def run_impl(case):
-    ''' (canonical observations for the model comparison, JSON-able raw observations for the oracle) '''
-    (_term, tab) = B.coq_case(case)
-    (drv, obs) = B.run_case_impl(case)
-    canon = B.canon_impl(drv, obs, tab, case['hist'])
-    raw = [dict(events=[slim_event(evt) for evt in item['events']], actions=item['actions'], escaped=item['escaped'],
-                recv_exc=item['recv_exc'], decode_error=item['decode_error']) for item in obs]
-    return (canon, raw)
-
-
 # ----------------------------------------------------------------------------- the oracle (property text)
-
-def spec_ident(spec):
-    base = (spec.get('src') or 'dtn:none', spec.get('time', 0), spec.get('seq', 0))
-    if spec.get('frag') is not None:
-        base += tuple(spec['frag'])
-    return base
-
-
-def first_route(routes, eid):
-    for (idx, (pat, action)) in enumerate(routes):
-        if re.compile(pat).match(eid) is not None:
-            return (idx, action)
-    return (None, None)
-
 
 def oracle_c10(case, raw):
     ''' :return: list of (signature, what) violations of C10 on the implementation's observations. '''
@@ -195,7 +153,7 @@ def oracle_c10(case, raw):
     acted = {}             # identity -> input index that caused delivery / forwarding / report
     node = case['node_id']
     for (idx, (spec, obs)) in enumerate(zip(case['hist'], raw)):
-        ident = spec_ident(spec)
+        ident = B.spec_ident(spec)
         dest = spec.get('dest') or 'dtn:none'
         delivers = [evt[1] for evt in obs['events'] if evt[0] == 'deliver']
         txs = [evt[1] for evt in obs['events'] if evt[0] == 'tx']
@@ -238,7 +196,7 @@ def oracle_c10(case, raw):
         if dest == node or dest == B.SAND_GROUP_EID:
             action = 'deliver'
         else:
-            (_ridx, action) = first_route(case['rx_routes'], dest)
+            (_ridx, action) = B.first_route(case['rx_routes'], dest)
         sec_fail = spec.get('sec') is not None
         for ent in fwds:
             pri = ent['bundle'].get('primary') or {}
@@ -255,7 +213,7 @@ def oracle_c10(case, raw):
             if delivers:
                 bad.append(('C10/route-says-forward-but-bundle-delivered', where))
             # handed to the CL iff a transmit route with an attached CL exists and fragmentation (if needed) is feasible
-            want = expect_forward(case, spec)
+            want = B.expect_forward(case, spec)
             if want is True and not fwds:
                 sig = 'C10/forward-route-not-taken'
                 if spec.get('prep'):
@@ -267,28 +225,6 @@ def oracle_c10(case, raw):
             if delivers or fwds:
                 bad.append(('C10/no-deliver-or-forward-route-but-acted', where + ' first-match action %r' % (action,)))
     return bad
-
-
-def expect_forward(case, spec):
-    ''' True / False / None (undetermined here: sizes near the MTU are C05's). '''
-    dest = spec.get('dest') or 'dtn:none'
-    for item in case['tx_routes']:
-        if re.compile(item['pattern']).match(dest) is not None:
-            if item.get('cl_type', 'fake') != 'fake':
-                return False
-            mtu = item.get('mtu')
-            if mtu is None:
-                return True
-            size = len(B.encode_bundle(B.spec_for_encode(spec)))
-            if mtu >= size + B.FRAG_MARGIN:
-                return True
-            if spec.get('frag') is not None or int(spec.get('flags', 0)) & B.FLAG_NO_FRAGMENT:
-                return True    # sent whole, whatever the size (C05's concern)
-            try:
-                return bool(B.frag_feasible(case, spec, size))
-            except B.AmbiguousCase:
-                return None
-    return False
 
 
 # ----------------------------------------------------------------------------- directed cases / corpus
@@ -370,38 +306,48 @@ def main():
         with open(chk.args.replay) as infile:
             rep = json.load(infile)
         case = rep['replay']['case'] if 'replay' in rep else rep['case']
-        (canon, raw) = run_impl(case)
+        (canon, raw) = B.run_impl(case)
         bad = oracle_c10(case, raw)
         for (idx, (spec, obs)) in enumerate(zip(case['hist'], canon['inputs'])):
-            print(idx, spec_ident(spec), spec.get('dest'), obs['events'])
+            print(idx, B.spec_ident(spec), spec.get('dest'), obs['events'])
         for (sig, what) in bad:
             print('ORACLE-FAIL %s: %s' % (sig, what))
         real = [item for item in bad if item[0] not in PENDING_FINDINGS]
         print('replay: %d oracle failure(s), %d pending-finding(s)' % (len(real), len(bad) - len(real)))
         sys.exit(1 if real else 0)
 
+    import time
+    phase = {}
+    mark = time.time()
     props_ok = chk.coq_props()
+    phase['coq_props'] = round(time.time() - mark, 1)
+    mark = time.time()
     (tr_ok, tr_err) = chk.translate_ok('reporttable')
     chk.obligation('translator:reporttable', tr_ok, tr_err)
 
-    count = 300 if chk.quick() else 30000
+    count = 240 if chk.quick() else 30000
     length = 8
     cases = [('directed', case) for case in directed_cases()]
     cases = [('corpus:' + name, case) for (name, case) in corpus_cases()] + cases
     for _ in range(count):
         cases.append(('random', gen_case(chk.rng, chk.rng.choice([4, 8, 8, 12]) if length else 8)))
 
+    B.BpDriver(node_id=NODE)   # import everything once, before the workers fork
     with concurrent.futures.ProcessPoolExecutor(max_workers=12) as pool:
-        impl = list(pool.map(run_impl, [case for (_tag, case) in cases], chunksize=8))
+        impl = list(pool.map(B.run_impl, [case for (_tag, case) in cases], chunksize=8))
 
+    phase['impl'] = round(time.time() - mark, 1)
+    mark = time.time()
     model = None
     model_err = ''
     try:
         terms = [B.coq_case(case)[0] for (_tag, case) in cases]
-        model = [B.canon_model(res) for res in chk.coq_eval('hist', ['Model.BpAgent'], terms, B.COQ_RUN, chunk=60)]
+        model = [B.canon_model(res) for res in chk.coq_eval('hist', ['Model.BpAgent'], terms, B.COQ_RUN, chunk=32)]
     except CoqError as err:
         model_err = str(err)[:600]
 
+    phase['coq_eval'] = round(time.time() - mark, 1)
+    chk.coverage['phase_seconds'] = phase
     pending_hits = {}
     disagree = []
     for (idx, ((tag, case), (canon, raw))) in enumerate(zip(cases, impl)):
@@ -409,10 +355,10 @@ def main():
         for (spec, obs) in zip(case['hist'], canon['inputs']):
             for evt in obs['events']:
                 kinds.add(evt[0])
-        repeats = len(case['hist']) - len(set(spec_ident(spec) for spec in case['hist']))
+        repeats = len(case['hist']) - len(set(B.spec_ident(spec) for spec in case['hist']))
         chk.case(ident=json.dumps(case, sort_keys=True), nontrivial=bool(kinds) and (repeats > 0 or len(kinds) > 1),
                  sample=dict(rx_routes=case['rx_routes'], tx_routes=case['tx_routes'],
-                             hist=[[list(spec_ident(spec)), spec.get('dest')] for spec in case['hist']],
+                             hist=[[list(B.spec_ident(spec)), spec.get('dest')] for spec in case['hist']],
                              events=[obs['events'] for obs in canon['inputs']]))
         chk.count('case_kind', tag.split(':')[0])
         chk.count('history_length', len(case['hist']))
